@@ -217,6 +217,9 @@ func (w *World) build(c PCell, r *rand.Rand) (*Served, *RawReq, UpScript, map[st
 		chain = "tfast"
 	}
 	host := HostFor(chain, c.Ovr)
+	if r.Intn(3) == 0 {
+		host += PortSuffix // a Host that names a port: the cookie domain is the host NAME
+	}
 	q := &RawReq{Method: pick(r, "GET", "GET", "GET", "POST"), Host: host}
 	up := UpScript{Mode: "ok", Status: c.UStatus, Lines: upstreamLines(c.Ups, r)}
 	if up.Status == 0 {
@@ -390,7 +393,7 @@ func projectCookies(resp *RawResp, host string) []CookieObs {
 				}
 			case "domain":
 				switch strings.ToLower(strings.TrimPrefix(val, ".")) {
-				case strings.ToLower(host):
+				case strings.ToLower(strings.TrimSuffix(host, PortSuffix)):
 					c.Dom = "host"
 				case cookieDomain:
 					c.Dom = "cfg"
